@@ -7,6 +7,8 @@ import (
 	"encoding/base64"
 	"encoding/json"
 	"fmt"
+	"os"
+	"path/filepath"
 	"sync/atomic"
 
 	"verifharness/internal/core"
@@ -19,7 +21,8 @@ type c05Case struct {
 	Name   string       `json:"name"`
 	Truth  imggen.Truth `json:"truth"`
 	Loader string       `json:"loader"`
-	File   string       `json:"file_base64"`
+	File   string       `json:"file_base64,omitempty"`
+	Path   string       `json:"file_path,omitempty"` // inputs above 1 MiB are written beside the replay file
 }
 
 type c05Stats struct {
@@ -37,13 +40,17 @@ func c05Check(f genFile) (kind, msg, loader string, confirmed bool, harnessErr s
 			return "", "", "", true, fmt.Sprintf("generator says %dx%d but the standard decoder reads %dx%d for %s", f.Truth.W, f.Truth.H, w, h, f.Name)
 		}
 	}
-	for _, loader := range []string{loaderFor(f.Truth.Format), "autometa"} {
-		res := loadWith(loader, bytes.NewReader(f.Bytes))
+	// the kind of reader the bytes are handed over in is a function of the bytes (so that a replay
+	// uses the same one): plain, positioned at an offset inside a larger reader, buffered, ...
+	rk := int(fnv64(f.Bytes) % uint64(len(readerKindNames)))
+	for li, loader := range []string{loaderFor(f.Truth.Format), "autometa"} {
+		res := loadWith(loader, readerOfKind(f.Bytes, rk+li))
+		via := readerKindNames[(rk+li)%len(readerKindNames)]
 		if res.Panic != nil {
-			return "panic", fmt.Sprintf("%s.Load panicked on well-formed %s: %v", loader, f.Name, res.Panic), loader, confirmed, ""
+			return "panic", fmt.Sprintf("%s.Load panicked on well-formed %s (read from a %s): %v", loader, f.Name, via, res.Panic), loader, confirmed, ""
 		}
 		if res.Err != nil || res.MD == nil {
-			return "rejected", fmt.Sprintf("%s.Load failed on well-formed %s (%dx%d depth %d): %v", loader, f.Name, f.Truth.W, f.Truth.H, f.Truth.Depth, res.Err), loader, confirmed, ""
+			return "rejected", fmt.Sprintf("%s.Load failed on well-formed %s (%dx%d depth %d, read from a %s): %v", loader, f.Name, f.Truth.W, f.Truth.H, f.Truth.Depth, via, res.Err), loader, confirmed, ""
 		}
 		md := res.MD
 		if string(md.Format) != f.Truth.Format || md.PixelWidth != f.Truth.W || md.PixelHeight != f.Truth.H || md.BitsPerComponent != f.Truth.Depth {
@@ -120,7 +127,16 @@ func runC05(r *core.Run) {
 			r.NTHash(mix(mix(uint64(len(t.Format))<<32|uint64(t.Depth), uint64(t.W)), uint64(t.H)))
 		}
 		if kind != "" {
-			r.Violate("file", t.Format+"/"+loader+"/"+kind+"/"+c05Class(f), msg, c05Case{f.Name, t, loader, base64.StdEncoding.EncodeToString(f.Bytes)})
+			cs := c05Case{Name: f.Name, Truth: t, Loader: loader}
+			if len(f.Bytes) <= 1<<20 {
+				cs.File = base64.StdEncoding.EncodeToString(f.Bytes)
+			} else {
+				dir := filepath.Join(core.OutDir(), "replays", r.Prop)
+				_ = os.MkdirAll(dir, 0o755)
+				cs.Path = filepath.Join(dir, fmt.Sprintf("witness-%016x.bin", fnv64(f.Bytes)))
+				_ = os.WriteFile(cs.Path, f.Bytes, 0o644)
+			}
+			r.Violate("file", t.Format+"/"+loader+"/"+kind+"/"+c05Class(f), msg, cs)
 		}
 	}
 	rng := core.NewRNG(r.Seed, "C05")
@@ -226,6 +242,12 @@ func runC05(r *core.Run) {
 	for _, f := range boundaryFiles(r.Seed, true) {
 		one(f)
 	}
+	// needed structures behind, or consisting of, several MiB
+	{
+		big := bigFiles(r.Seed)
+		core.ParallelFor(len(big), 4, func(i int) { one(big[i]) })
+		r.Obs("multi_megabyte_files", len(big))
+	}
 	if r.Thorough() {
 		c05Sweeps(r, rng, one)
 	}
@@ -325,6 +347,11 @@ func replayC05(stage string, raw json.RawMessage) (bool, string, error) {
 	b, err := base64.StdEncoding.DecodeString(cs.File)
 	if err != nil {
 		return false, "", err
+	}
+	if cs.File == "" && cs.Path != "" {
+		if b, err = os.ReadFile(cs.Path); err != nil {
+			return false, "", err
+		}
 	}
 	if stage == "real" {
 		res := loadWith(cs.Loader, bytes.NewReader(b))
